@@ -5,6 +5,7 @@
   processes.
 -/
 import Flamego.Model.Env
+import Flamego.Props.C15
 namespace Flamego.Env
 
 /-- the environment is always one of the three documented values -/
@@ -93,5 +94,29 @@ theorem dev_only_if (var : Bytes) (calls : List Bytes) (h : isDev (run var calls
 
 example : run prod [] = prod ∧ run [98, 111, 103, 117, 115] [] = dev ∧ run [] [test, 80 :: prod.tail] = test ∧
     isDev (run prod [[120]]) = false := by decide
+
+
+/-! ### the two halves together: C15's "only in development mode", down to the process environment -/
+
+/-- A request served by a chain with Recovery in a process started with `FLAMEGO_ENV = var` that has called `SetEnv`
+    with each of `calls` (so that the chain's `dev` flag is `isDev (run var calls)`): panic detail reaches the client
+    only if the mode was never set to a valid value at all (the default), or "development" was given explicitly —
+    in particular never in a process started with FLAMEGO_ENV=production that does not itself call
+    SetEnv("development"). -/
+theorem detail_only_if_development_was_chosen (c : Chain.Cfg) (var : Bytes) (calls : List Bytes)
+    (hdev : c.dev = isDev (run var calls)) (h : Chain.Tok.detail ∈ (Chain.serve c).out) :
+    (∀ e ∈ var :: calls, valid e = false) ∨ dev ∈ var :: calls := by
+  have := Flamego.Chain.body_detail_only_in_dev c h
+  rw [hdev] at this
+  exact dev_only_if var calls this
+
+/-- … and a process in production or test mode never shows it, whatever panics -/
+theorem no_detail_in_production (c : Chain.Cfg) (var : Bytes) (calls : List Bytes)
+    (hdev : c.dev = isDev (run var calls)) (hmode : run var calls = prod ∨ run var calls = test) :
+    Chain.Tok.detail ∉ (Chain.serve c).out := by
+  intro h
+  have := Flamego.Chain.body_detail_only_in_dev c h
+  rw [hdev] at this
+  rcases hmode with hm | hm <;> rw [hm] at this <;> revert this <;> decide
 
 end Flamego.Env
